@@ -53,11 +53,15 @@ DerivedOK(r, PI) == \A x \in ToSet(r.obs.tk) : x.id \in DOMAIN PI =>
 BWF == INSTANCE BlobWF
 StoredBlobsOK(rw) ==
     Has(rw, "sb") => \A b \in ToSet(rw.sb) : b.st = "absent" \/ (b.st = "ok" /\ BWF!WF(b.kind, b.n, b.p, b.c2))
+\* what an independent reader requires of the stored database whatever the call was (also after calls outside the modelled domain):
+\* integrity and foreign keys clean, verify() passes, every stored blob well-formed, no per-track row that names no stored track
+RawSane(rw) == /\ rw.integrity = "ok" /\ rw.fk = 0 /\ rw.verify = "ok"
+               /\ StoredBlobsOK(rw)
+               /\ (Has(rw, "orph") => rw.orph = 0)
 RawTracksOK(r, PI) ==
     Has(r.obs, "rawt") =>
         LET rw == r.obs.rawt IN
-        /\ rw.integrity = "ok" /\ rw.fk = 0 /\ rw.verify = "ok"
-        /\ StoredBlobsOK(rw)
+        /\ RawSane(rw)
         /\ {x.id : x \in ToSet(rw.rows)} = ToSet(r.obs.tracks) /\ Len(rw.rows) = Len(r.obs.tracks)
         /\ \A x \in ToSet(rw.rows) :
               /\ x.ouuid /\ x.oid = x.id
@@ -179,6 +183,8 @@ TProbe ==
        /\ (Has(r, "obs") => \A x \in ToSet(r.obs.tk) \cup ToSet(r.obs.stale) :
                                 /\ (Has(x, "snap") /\ IsThrow(x.snap) => x.snap.std)
                                 /\ (Has(x, "get") => \A f \in DOMAIN x.get : (IsThrow(x.get[f]) => x.get[f].std)))
+       \* C11 quantifies over all sequences of public calls: whatever the probe was, the stored database stays well-formed
+       /\ (Has(r, "obs") /\ Has(r.obs, "rawt") => RawSane(r.obs.rawt))
     /\ probing' = TRUE
     /\ l' = l + 1 /\ UNCHANGED <<fam, fb, ts, dead, pinfo, vs>>
 
